@@ -8,7 +8,7 @@ from ..interp import name_of, Irregular
 from .c13 import validate_traces, history_site
 from .c03 import setof
 
-PROBES = [np.array([0.7, 1.1, 1.0]), np.array([2.5, 0.4, 2.0]), np.array([1.3, 1.45, 0.0])]
+PROBES = [np.array([0.7, 1.1, 1.0, 0.9, 1.7]), np.array([2.5, 0.4, 2.0, 1.2, 0.3]), np.array([1.3, 1.45, 0.0, 2.2, 0.6])]
 
 
 def capture_solve(rec, prob, method):
@@ -39,6 +39,8 @@ def seam_diff(a, b):
         if (ba is None) != (bb is None) or (ba is not None and [tuple(map(float, t)) for t in ba] != [tuple(map(float, t)) for t in bb]):
             return 'bounds differ'
         for x in PROBES:
+            if n > len(x):
+                raise common.MachineryError('probe points shorter than the problem (%d variables)' % n)
             x = x[:n]
             for name in ('fun', 'jac', 'hess'):
                 fa, fb = ca.get(name), cb.get(name)
@@ -94,9 +96,14 @@ def replay_chunk(idx, hists):
                         # the constant model may take another route (a Parameter has no degree): only outcomes of the same kind are compared
                         bump(part, 'route_differs_between_parameter_and_constant_model')
                     elif a[0] == 'solution':
-                        if ca and cb and ca[0].get('method') == cb[0].get('method'):
+                        same_route = bool(ca and cb and ca[0].get('method') == cb[0].get('method')) or (not ca and not cb)
+                        if ca and cb and same_route:
                             diff = seam_diff(ca, cb)
-                        if diff is None and a[1].status == b[1].status and a[1].status.value == 'optimal' and a[1].objective_value is not None:
+                        if not same_route:
+                            # a Parameter has no degree, so `auto` may pick another method for the constant model; on a
+                            # non-convex model two methods may legitimately stop at different local optima
+                            bump(part, 'route_differs_between_parameter_and_constant_model')
+                        elif diff is None and a[1].status == b[1].status and a[1].status.value == 'optimal' and a[1].objective_value is not None:
                             if abs(a[1].objective_value - b[1].objective_value) > 1e-4 * (1 + abs(b[1].objective_value)):
                                 diff = 'objective value differs from the model rebuilt with constants'
                         elif diff is None and a[1].status != b[1].status and ca and cb and ca[0].get('method') == cb[0].get('method'):
@@ -225,12 +232,15 @@ def run(report, tier):
     triples = [h for h in g.triples() if any(o['op'] == 'SetParam' for o in h) and h[-1]['op'] == 'Solve'
                and any(o['op'] == 'SetObjective' and o['obj']['id'] == 4 for o in h)]
     report.extra['setparam_histories_in_model'] = len(triples)
-    sample = rng.sample(triples, min(500 if tier == 'quick' else 6000, len(triples)))
+    from .. import histgraph
+    sample, report.extra['strata (fill, edit, observation) covered'] = histgraph.stratified(triples, 500 if tier == 'quick' else 6000, rng)
     batch = []
     for part in histrun.parallel(replay_chunk, sample, chunk=10):
         batch += part.pop('batch')
         report.merge(part)
     validate_traces(report, batch, 'C12 histories', keep=('params_current',))
+    from .. import suitetrace
+    suitetrace.validate(report, keep=('params_current',))
     apirun.run_config(report, 'MC_C01', observer=api_observer, report_kinds=(), overrides={'Want': '<-MC_WantH', 'Fns': '<-MC_FnsSmall'})
     return report.finish(
         rule='Solve.tla model-checked (C12_NoFrozenParam, C13_SolveFresh: no artefact snapshots a parameter). Histories of the model graph '
